@@ -1,13 +1,14 @@
 ------------------------------ MODULE Trace_Split ------------------------------
 (* C14.split: several transferable keys concatenated in one blob are separated correctly.        *)
-EXTENDS Subpackets, TLC, Json, IOUtils
+EXTENDS Subpackets, Armor, TLC, Json, IOUtils
 J == JsonDeserialize(IOEnv.TRACE_FILE)
 Events == J.events
 VARIABLE i
 PrimPkts(blob) == SelectSeq(Split(blob).pkts, LAMBDA k : k.tag \in {5, 6})
 SplitEv(e) ==
   LET ps == PrimPkts(e.blob) IN
-  IF ~Split(e.blob).ok \/ Len(ps) # Len(e.primaries) THEN "harness.primaries"
+  IF "text" \in DOMAIN e /\ (AllPayloads(e.text) # e.blob \/ \E k \in 1..Len(AllBlocks(e.text)) : ~AllBlocks(e.text)[k].crcok) THEN "harness.armor-text"
+  ELSE IF ~Split(e.blob).ok \/ Len(ps) # Len(e.primaries) THEN "harness.primaries"
   ELSE IF \E k \in 1..Len(ps) : e.primaries[k].preimage # <<153>> \o BE(Len(PubPortion(ps[k].body)), 2) \o PubPortion(ps[k].body)
                                 \/ e.primaries[k].secret # (ps[k].tag = 5) THEN "harness.preimage"
   ELSE IF e.raised THEN "C14.split"
